@@ -84,4 +84,10 @@ def get_units():
         us.append(k.unit())
     from . import lemmas as LM
     us += LM.lemma_units()
+    # the 43/14 response is the one message whose encode() decides what fits: for object lists of any total size the bytes it emits are the
+    # S-PAGE page (longest fitting prefix, more-follows, next object id), never more than 253 (the lemma C20/page.<m>objects; the
+    # bounded codec above only covers lists that fit)
+    from . import C20 as _C20
+    for m in (1, 2, 3, 4):
+        us.append(Unit('C01/page.%dobjects' % m, _C20.page_lemma(m), ['C01'], functions=[_C20.MEI + 'ReadDeviceInformationResponse.encode', _C20.MEI + 'ReadDeviceInformationResponse._encode_object']))
     return us
